@@ -17,7 +17,7 @@ func H_witness() {
 }
 
 // H_cancel. Params: nf (number of files, each B+1 bytes), damage (bitmask of files whose
-// last byte is flipped; bit 8: first file deleted), cancel (0 none, 1 before the call,
+// last byte is flipped; bit 8: first file deleted; bit 9: target directory missing; bit 10: target is a regular file), cancel (0 none, 1 before the call,
 // 2 by a concurrent goroutine at any scheduling point), mode (0 fail-fast, 1 wounds file, 2 printer).
 func H_cancel() {
 	hlib.SetCopyBuf()
@@ -45,6 +45,15 @@ func H_cancel() {
 	}
 	if damage&(1<<8) != 0 {
 		hlib.Must(os.Remove(dir+"/f0"), "delete")
+	}
+	if damage&(1<<9) != 0 {
+		// the whole target directory is gone
+		hlib.Must(os.RemoveAll(dir), "remove target")
+	}
+	if damage&(1<<10) != 0 {
+		// the target is a regular file
+		hlib.Must(os.RemoveAll(dir), "remove target")
+		hlib.Must(os.WriteFile(dir, []byte{1}, 0o644), "file instead of target")
 	}
 	valid := damage == 0
 
